@@ -213,7 +213,7 @@ class Check:
             return
         solve.solve_all(todo, nproc=nproc, timeout_s=timeout_s)
         for ob in todo:
-            if ob.refuted and ob.kind != 'probe':
+            if ob.refuted and ob.kind not in ('probe', 'reach'):
                 self._handle_refuted(ob)
             elif ob.kind == 'forall' and not ob.holds and ob.meta.get('fallback_payloads'):
                 # solver inconclusive: directed concrete probing of the real code (can only turn 'unknown' into a replayed violation,
@@ -257,7 +257,7 @@ class Check:
                 for r in rec['obls']:
                     ob = DoneObligation(r)
                     self.obls.append(ob)
-                    if ob.refuted and ob.kind != 'probe':
+                    if ob.refuted and ob.kind not in ('probe', 'reach'):
                         self._handle_refuted(ob)
         _PART = None
 
